@@ -424,6 +424,151 @@ def _refuted_tmp_scope(prog, node) -> bool:
     return True
 
 
+# ---------------------------------------------------------------------------------------- counters / scans, observed
+def eval_vars_counter(prog) -> List[str]:
+    """CheckVariableDeclaration.run on a stub declaration: scope.vars goes up by exactly 1 in a Function scope, stays put at
+    file level.  Raises Unsupported."""
+    from ..stubrun import RUNTIME_ERRORS, StubContext, line_tokens, run_rule
+    P = []
+    for scope, before, want in (("Function", 0, 1), ("Function", 3, 4), ("Function", 7, 8), ("GlobalScope", 0, 0), ("GlobalScope", 2, 2)):
+        sc = StubContext(prog, line_tokens(["TAB", "INT", "TAB", ("IDENTIFIER", "a"), "SEMI_COLON", "NEWLINE"], line=3),
+                         history=["IsFuncDeclaration", "IsBlockStart", "IsVarDeclaration", "IsVarDeclaration"],
+                         scope=scope, scope_attrs={"vars": before, "vdeclarations_allowed": True})
+        try:
+            run_rule(prog, "CheckVariableDeclaration", sc)
+        except RUNTIME_ERRORS:
+            pass
+        except Unsupported:
+            if sc.obj.scope.vars == before and want != before:
+                raise
+        got = sc.obj.scope.vars
+        if got != want:
+            P.append(f"a declaration in a {scope} scope holding {before} variables leaves scope.vars at {got}, expected {want}")
+    return P
+
+
+def eval_lines_counter(prog) -> List[str]:
+    """CheckLineCount.run on stub statements: scope.lines goes up by the number of (escaped) newline tokens among the first
+    tkn_scope tokens; Scope.outer() adds the scope's lines to its parent and answers the parent.  Raises Unsupported."""
+    from ..stubrun import RUNTIME_ERRORS, StubContext, evaluator_for, make_scope, run_rule, tok
+    P = []
+    layouts = [["INT", "NEWLINE", "TAB", "IDENTIFIER", "NEWLINE", "RBRACE", "NEWLINE", "INT"],
+               ["IDENTIFIER", "ESCAPED_NEWLINE", "IDENTIFIER", "SEMI_COLON", "NEWLINE", "NEWLINE", "NEWLINE", "NEWLINE"],
+               ["NEWLINE", "NEWLINE", "NEWLINE", "IDENTIFIER", "NEWLINE", "IDENTIFIER", "IDENTIFIER", "NEWLINE"],
+               ["LBRACE", "NEWLINE", "IDENTIFIER", "IDENTIFIER", "IDENTIFIER", "IDENTIFIER", "IDENTIFIER", "NEWLINE"]]
+    for kinds in layouts:
+        for n in (1, 2, 5, 8):
+            for scope, hist in (("Function", ["IsFuncDeclaration", "IsBlockStart", "IsAssignation"]),
+                                ("ControlStructure", ["IsBlockStart", "IsControlStatement", "IsAssignation"]),
+                                ("GlobalScope", ["IsEmptyLine", "IsVarDeclaration"])):
+                toks = [tok(k, 1 + i, 1) for i, k in enumerate(kinds)]
+                parent = make_scope("Function") if scope == "ControlStructure" else None
+                sc = StubContext(prog, toks, history=hist, scope=scope, scope_attrs={"lines": 4, "parent": parent, "lvl": 1 if parent else 0},
+                                 tkn_scope=n)
+                try:
+                    run_rule(prog, "CheckLineCount", sc)
+                except RUNTIME_ERRORS:
+                    pass
+                want = 4 + sum(1 for k in kinds[:n] if k in ("NEWLINE", "ESCAPED_NEWLINE"))
+                if sc.obj.scope.lines != want:
+                    P.append(f"a {n}-token statement `{' '.join(kinds[:n])}` in a {scope} scope moves scope.lines from 4 to "
+                             f"{sc.obj.scope.lines}, expected {want} (one per newline token of the statement)")
+    # Scope.outer
+    parent = make_scope("Function", lines=7)
+    child = make_scope("ControlStructure", parent=parent, lines=3)
+    sc = StubContext(prog, [])
+    ev = evaluator_for(prog, "CheckLineCount", sc)
+    outer = ev.methods.get(("ControlStructure", "outer"))
+    if outer is None:
+        raise Unsupported("Scope.outer not found")
+    r = ev.invoke(outer, [child], {})
+    if r is not parent or parent.lines != 10 or child.lines != 3:
+        P.append(f"Scope.outer() on a 3-line block inside a 7-line function answers {r!r} and leaves parent.lines = {parent.lines} "
+                 f"(expected the parent, 10)")
+    top = make_scope("GlobalScope", lines=5)
+    r = ev.invoke(ev.methods.get(("GlobalScope", "outer"), outer), [top], {})
+    if r is not None:
+        P.append("Scope.outer() on the GlobalScope does not answer None")
+    return sorted(set(P), key=P.index)
+
+
+def eval_token_scan(prog, cname: str) -> List[str]:
+    """Every token of the statement (and none beyond it) is looked at: a single offending token is moved through the list."""
+    from ..stubrun import RUNTIME_ERRORS, StubContext, run_rule, tok
+    P = []
+    if cname == "CheckLineLen":
+        for n in (1, 3, 6):
+            for bad in range(0, 8):
+                toks = [tok("IDENTIFIER", 1 + i // 3, 1 + (i % 3) * 4, "abc") for i in range(8)]
+                toks[bad] = tok("IDENTIFIER", 1 + bad // 3, 90, "far")
+                sc = StubContext(prog, toks, history=["IsExpressionStatement"], tkn_scope=n)
+                try:
+                    run_rule(prog, cname, sc)
+                except RUNTIME_ERRORS:
+                    raise Unsupported("CheckLineLen fails on the stub statement")
+                got = "LINE_TOO_LONG" in sc.codes()
+                if got != (bad < n):
+                    P.append(f"a token beyond column 81 at position {bad} of a {n}-token statement is "
+                             f"{'reported' if got else 'not reported'}")
+    return sorted(set(P), key=P.index)
+
+
+def _is_unit_increment(n) -> bool:
+    if isinstance(n, ast.AugAssign):
+        return isinstance(n.op, ast.Add) and isinstance(n.value, ast.Constant) and n.value.value == 1
+    if isinstance(n, ast.Assign) and len(n.targets) == 1 and isinstance(n.value, ast.BinOp) and isinstance(n.value.op, ast.Add):
+        t = text(n.targets[0])
+        a, b = n.value.left, n.value.right
+        return (text(a) == t and isinstance(b, ast.Constant) and b.value == 1) or (text(b) == t and isinstance(a, ast.Constant) and a.value == 1)
+    return False
+
+
+def _functions_counter(prog, live):
+    """CFG statement of `one unit increment per recognised function definition`: all live writes are unit increments in
+    IsFuncDeclaration.run (helpers are inlined); every `return True, ...` of run() is reached only through one of them, no
+    `return False, ...` is reachable from one, and no path executes two."""
+    from ..cfg import cfg_of
+    from ..dataflow import cfg_node_of
+    want = "rules/is_func_declaration.py::IsFuncDeclaration.run"
+    if not live:
+        return False, "no live increment"
+    if any(f.key != want for f, _ in live):
+        return False, "written outside IsFuncDeclaration.run"
+    if not all(_is_unit_increment(n) for _, n in live):
+        return False, "a write is not a +1"
+    fn = live[0][0]
+    g = cfg_of(fn)
+    incs = {cfg_node_of(g, n) for _, n in live}
+    if None in incs:
+        return False, "increment without CFG node"
+    for a in incs:
+        if any(b == a or True for b in incs if g.can_reach(a, b, follow_exc=False)):
+            return False, "a path executes the increment twice (loop / second increment)"
+    n_true = 0
+    after_inc = set()
+    for a in incs:
+        after_inc |= g.reachable(a, follow_exc=False)
+    before = g.reachable(g.entry, avoid=incs, follow_exc=False)
+    for r in walk_fn(fn.node):
+        if not isinstance(r, ast.Return):
+            continue
+        v = r.value.elts[0] if isinstance(r.value, ast.Tuple) and r.value.elts else r.value
+        val = v.value if isinstance(v, ast.Constant) else None
+        rid = g.nid(r)
+        if rid is None or rid not in g.reachable(g.entry, follow_exc=False):
+            continue
+        if val is True:
+            n_true += 1
+            if rid in before:
+                return False, f"`{text(r, 40)}` (line {r.lineno}) can be reached without the increment"
+        elif val is False or v is None or (isinstance(v, ast.Constant) and v.value is None):
+            if rid in after_inc:
+                return False, f"`{text(r, 40)}` (line {r.lineno}) answers no-match after the increment"
+    if n_true == 0:
+        return False, "no `return True, ...` found in IsFuncDeclaration.run"
+    return True, ""
+
+
 def rule_counters(run, prog):
     run.rule("R-3.2", "counter discipline: scope.functions / scope.vars / scope.lines / the argument counter each have one "
              "unit increment at the right place and no other live write (constructor zeroing and the parent accumulation "
@@ -432,18 +577,10 @@ def rule_counters(run, prog):
     w = _attr_writes(prog, "functions")
     live = [(f, n) for f, n in w if not (isinstance(n, ast.Assign) and isinstance(n.value, ast.Constant) and n.value.value == 0
                                         and f.name == "__init__") and not _refuted_tmp_scope(prog, n) and not trivially_dead(n)]
-    ok = len(live) == 1 and isinstance(live[0][1], ast.AugAssign) and isinstance(live[0][1].op, ast.Add) \
-        and isinstance(live[0][1].value, ast.Constant) and live[0][1].value.value == 1 \
-        and live[0][0].key == "rules/is_func_declaration.py::IsFuncDeclaration.run"
-    if ok:
-        # on the path that returns True: the enclosing block ends with `return True, ...`
-        blk = parent(live[0][1])
-        body = blk.body if any(s is live[0][1] for s in getattr(blk, "body", [])) else getattr(blk, "orelse", [])
-        last = body[-1] if body else None
-        ok = isinstance(last, ast.Return) and isinstance(last.value, ast.Tuple) and text(last.value.elts[0]) == "True"
+    ok, why_f = _functions_counter(prog, live)
     run.ob("R-3.2", "scope.py::GlobalScope::functions-counter", ok,
            "scope.functions is not incremented exactly once, by 1, on the matching path of IsFuncDeclaration.run: "
-           + ", ".join(f"{f.key}:{n.lineno} {text(n)}" for f, n in live), live[0][1] if live else None)
+           + why_f + " [" + ", ".join(f"{f.key}:{n.lineno} {text(n)}" for f, n in live) + "]", live[0][1] if live else None)
     # vars
     w = _attr_writes(prog, "vars")
     live = [(f, n) for f, n in w if not (isinstance(n, ast.Assign) and isinstance(n.value, ast.Constant) and n.value.value == 0
@@ -459,9 +596,16 @@ def rule_counters(run, prog):
         idx = [i for i, s in enumerate(blk) if s is n]
         cmp_after = idx and any("TOO_MANY_VARS_FUNC" in text(s) for s in blk[idx[0] + 1:])
         ok = ok and bool(cmp_after)
+    try:
+        probs = eval_vars_counter(prog)
+        ok = not probs
+        why_eval = "; ".join(probs[:2])
+    except Unsupported as ex:
+        run.note(f"R-3.2 vars-counter: CheckVariableDeclaration.run not interpreted ({ex}); syntactic form used")
+        why_eval = ""
     run.ob("R-3.2", "scope.py::Scope::vars-counter", ok,
            "scope.vars is not incremented exactly once, by 1, under the Function-scope guard and before the comparison: "
-           + ", ".join(f"{f.key}:{n.lineno} {text(n)}" for f, n in live), live[0][1] if live else None)
+           + (why_eval or ", ".join(f"{f.key}:{n.lineno} {text(n)}" for f, n in live)), live[0][1] if live else None)
     # lines
     w = _attr_writes(prog, "lines")
     live = [(f, n) for f, n in w if not (isinstance(n, ast.Assign) and isinstance(n.value, ast.Constant) and n.value.value == 0
@@ -478,36 +622,169 @@ def rule_counters(run, prog):
         ok = bool(loop) and "tokens" in text(loop[0].iter) and "tkn_scope" in text(loop[0].iter) and bool(cond) \
             and "NEWLINE" in text(cond[0].test)
     ok_acc = len(acc) == 1 and text(acc[0][1]) == "self.parent.lines += self.lines"
-    run.ob("R-3.2", "scope.py::Scope::lines-counter", ok and ok_acc,
+    ok = ok and ok_acc
+    why_eval = ""
+    try:
+        probs = eval_lines_counter(prog)
+        # who writes is still a matter of form: only CheckLineCount.run and Scope.outer
+        ok = not probs and not others and bool(incs) and bool(acc)
+        why_eval = "; ".join(probs[:2])
+    except Unsupported as ex:
+        run.note(f"R-3.2 lines-counter: CheckLineCount.run / Scope.outer not interpreted ({ex}); syntactic form used")
+    run.ob("R-3.2", "scope.py::Scope::lines-counter", ok,
            "scope.lines is not `+= 1 per NEWLINE token of the statement` (CheckLineCount) plus the parent accumulation of "
-           "Scope.outer: " + ", ".join(f"{f.key}:{n.lineno} {text(n)}" for f, n in live), incs[0][1] if incs else None)
+           "Scope.outer: " + (why_eval or ", ".join(f"{f.key}:{n.lineno} {text(n)}" for f, n in live)), incs[0][1] if incs else None)
     rm = registry_model(prog)
     run.ob("R-3.2", "rules/check_line_count.py::CheckLineCount::runs-on-every-statement",
            "_rule" in rm.live_slots("CheckLineCount"), "CheckLineCount is not run after every statement", None)
 
 
+SAFE_SCOPES = {"GlobalScope", "UserDefinedType"}
+
+
+def _scope_types(atom, negated) -> Optional[set]:
+    """Scope classes the current scope may be when *atom* (negated: its negation) holds; None if the atom says nothing.
+    Forms: type(context.scope) is / == / in <classes>, isinstance(context.scope, <classes>), context.scope.name == / in
+    <names>, and their negations; a negated conjunction of `is not` tests (guard clause `if type(s) is not A and type(s) is
+    not B: return`)."""
+    def names(e):
+        if isinstance(e, (ast.Tuple, ast.List, ast.Set)):
+            out = set()
+            for x in e.elts:
+                n = names(x)
+                if n is None:
+                    return None
+                out |= n
+            return out
+        if isinstance(e, ast.Name):
+            return {e.id}
+        if isinstance(e, ast.Constant) and isinstance(e.value, str):
+            return {e.value}
+        return None
+
+    def subject(e) -> bool:
+        t = text(e)
+        return t in ("type(context.scope)", "type(self.scope)", "context.scope.name", "self.scope.name", "context.scope.__class__",
+                     "type(context.scope).__name__")
+
+    if isinstance(atom, ast.UnaryOp) and isinstance(atom.op, ast.Not):
+        return _scope_types(atom.operand, not negated)
+    if isinstance(atom, ast.BoolOp):
+        parts = [_scope_types(v, negated) for v in atom.values]
+        conj = isinstance(atom.op, ast.And) != negated            # De Morgan
+        if conj:
+            known = [p_ for p_ in parts if p_ is not None]
+            return set.intersection(*known) if known else None
+        return set.union(*parts) if all(p_ is not None for p_ in parts) else None
+    if isinstance(atom, ast.Compare) and len(atom.ops) == 1 and subject(atom.left):
+        op, ns = atom.ops[0], names(atom.comparators[0])
+        if ns is None:
+            return None
+        pos = isinstance(op, (ast.Is, ast.Eq, ast.In))
+        neg = isinstance(op, (ast.IsNot, ast.NotEq, ast.NotIn))
+        if (pos and not negated) or (neg and negated):
+            return ns
+        return None
+    if isinstance(atom, ast.Call) and text(atom.func) == "isinstance" and len(atom.args) == 2 \
+            and text(atom.args[0]) in ("context.scope", "self.scope") and not negated:
+        return names(atom.args[1])
+    return None
+
+
+def _established_scopes(fn, node) -> Optional[set]:
+    out = None
+    for atom, negated, _ in dominating_atoms(fn, node):
+        ts = _scope_types(atom, negated)
+        if ts is not None:
+            out = ts if out is None else (out & ts)
+    return out
+
+
 def _scope_type_guard(fn, node) -> bool:
     """Is *node* only reached when the current scope is file level / a type body -- so that no open block of a function is
-    among the scopes it climbs through?  Accepted: the enclosing run() (or the run() of the helper's class) returns early
-    unless type(context.scope) is GlobalScope [/ UserDefinedType], or a dominating test history[-1] == 'IsFuncDeclaration'
-    (that primary is itself so guarded)."""
-    cls = fn.cls
-    cands = [fn]
-    if cls is not None and fn.name != "run" and "run" in cls.methods:
-        cands.append(cls.methods["run"])
-    for f in cands:
-        for st in f.node.body[:6]:
-            if isinstance(st, ast.If) and st.body and isinstance(st.body[-1], ast.Return):
-                parts = st.test.values if isinstance(st.test, ast.BoolOp) and isinstance(st.test.op, ast.And) else [st.test]
-                if parts and all(text(p_) in ("type(context.scope) is not GlobalScope", "type(context.scope) is not UserDefinedType",
-                                              "type(context.scope) != GlobalScope", "type(context.scope) != UserDefinedType")
-                                 for p_ in parts):
-                    return True
-    for a in ancestors(node):
-        if isinstance(a, ast.If) and text(a.test) == "context.history[-1] == 'IsFuncDeclaration'" and any(
-                x is node or any(y is node for y in ast.walk(x)) for x in a.body):
+    among the scopes it climbs through?  Decided on the CFG: a test on the type / name of context.scope whose outcome
+    dominates the node (nested if or guard clause, in this function -- or, for a helper method, at each of its call sites in
+    the class's run()), or a dominating test history[-1] == 'IsFuncDeclaration' (that primary is itself so guarded)."""
+    from ..calls import callgraph
+    from ..model import program
+    ts = _established_scopes(fn, node)
+    if ts is not None and ts <= SAFE_SCOPES:
+        return True
+    for atom, negated, _ in dominating_atoms(fn, node):
+        if not negated and isinstance(atom, ast.Compare) and len(atom.ops) == 1 and isinstance(atom.ops[0], ast.Eq) \
+                and text(atom.left) in ("context.history[-1]", "self.history[-1]") and text(atom.comparators[0]) == "'IsFuncDeclaration'":
             return True
+    cls = fn.cls
+    if cls is not None and fn.name != "run" and "run" in cls.methods:
+        runfn = cls.methods["run"]
+        sites = callgraph(program()).sites.get(fn.key, [])
+        if sites and all(c.caller is runfn for c in sites):
+            return all((_established_scopes(runfn, c.node) or {"?"}) <= SAFE_SCOPES for c in sites)
     return False
+
+
+def eval_update_outer(prog) -> List[str]:
+    """Context.update interpreted on stub scopes: leaving a scope adds its lines to the parent exactly once and makes the
+    parent current; entering one adds nothing; finished single-instruction control structures are climbed.  Raises
+    Unsupported."""
+    from ..stubrun import RUNTIME_ERRORS, StubContext, evaluator_for, make_scope
+    P = []
+
+    def run_update(ctx):
+        sc = StubContext(prog, [])
+        ev = evaluator_for(prog, "CheckLineCount", sc)
+        up = ev.methods.get(("Context", "update"))
+        if up is None:
+            raise Unsupported("Context.update not found")
+        try:
+            ev.invoke(up, [ctx], {})
+        except RUNTIME_ERRORS as e:
+            raise Unsupported(f"Context.update fails on the stub: {type(e).__name__}: {e}")
+
+    def ctx_of(scope, sub, last):
+        c = StubContext(prog, [], history=["IsFuncDeclaration", last], scope="GlobalScope").obj
+        c.scope, c.sub = scope, sub
+        return c
+    # leaving a function body
+    glob = make_scope("GlobalScope", lines=2)
+    fun = make_scope("Function", parent=glob, lines=9)
+    c = ctx_of(fun, glob, "IsBlockEnd")
+    run_update(c)
+    if c.scope is not glob or glob.lines != 11:
+        P.append(f"leaving a 9-line function body: current scope {c.scope._cls}, parent.lines = {glob.lines} (expected GlobalScope, 2 + 9)")
+    # entering one
+    glob = make_scope("GlobalScope", lines=2)
+    fun = make_scope("Function", parent=glob, lines=0)
+    c = ctx_of(glob, fun, "IsFuncDeclaration")
+    run_update(c)
+    if c.scope is not fun or glob.lines != 2 or fun.lines != 0:
+        P.append(f"entering a function body: current scope {c.scope._cls}, GlobalScope.lines = {glob.lines}, Function.lines = {fun.lines}")
+    # entering a block inside a function
+    glob = make_scope("GlobalScope", lines=2)
+    fun = make_scope("Function", parent=glob, lines=4)
+    blk = make_scope("ControlStructure", parent=fun, lines=0, multiline=True)
+    c = ctx_of(fun, blk, "IsBlockStart")
+    run_update(c)
+    if c.scope is not blk or glob.lines != 2 or fun.lines != 4:
+        P.append(f"entering a block inside a 4-line function: current scope {c.scope._cls}, GlobalScope.lines = {glob.lines}, "
+                 f"Function.lines = {fun.lines} (expected ControlStructure, 2, 4)")
+    # a finished brace-less control structure (two levels)
+    fun = make_scope("Function", parent=make_scope("GlobalScope"), lines=5)
+    cs = make_scope("ControlStructure", parent=fun, lines=2, instructions=1, multiline=False)
+    cs2 = make_scope("ControlStructure", parent=cs, lines=1, instructions=1, multiline=False)
+    c = ctx_of(cs2, None, "IsAssignation")
+    run_update(c)
+    if c.scope is not fun or fun.lines != 8:
+        P.append(f"after the only instruction of two nested brace-less control structures: current scope {c.scope._cls}, "
+                 f"Function.lines = {fun.lines} (expected Function, 5 + 2 + 1)")
+    # a braced control structure stays open
+    fun = make_scope("Function", parent=make_scope("GlobalScope"), lines=5)
+    cs = make_scope("ControlStructure", parent=fun, lines=2, instructions=1, multiline=True)
+    c = ctx_of(cs, None, "IsAssignation")
+    run_update(c)
+    if c.scope is not cs or fun.lines != 5:
+        P.append("a braced control structure is left (or its lines counted) after its first instruction")
+    return P
 
 
 def rule_outer_effect(run, prog):
@@ -518,12 +795,21 @@ def rule_outer_effect(run, prog):
              "open scope double-counts the block's lines; a call in a Primary that closes the scope comes before "
              "CheckLineCount and loses the closing line", floor=4)
     n = 0
+    try:
+        up_problems = eval_update_outer(prog)
+    except Unsupported as ex:
+        run.note(f"R-3.5: Context.update not interpreted ({ex}); syntactic form used")
+        up_problems = None
     for fn in prog.fns:
         for c in walk_fn(fn.node):
             if isinstance(c, ast.Call) and isinstance(c.func, ast.Attribute) and c.func.attr == "outer" and not c.args:
                 n += 1
                 par = parent(c)
-                if fn.key == "context.py::Context.update":
+                if fn.key == "context.py::Context.update" and up_problems is not None:
+                    ok = not up_problems
+                    why = ("the closing site no longer applies it to the current scope exactly when that scope is replaced by "
+                           "its parent: " + "; ".join(up_problems[:2]))
+                elif fn.key == "context.py::Context.update":
                     recv = text(c.func.value) == "self.scope"
                     if isinstance(par, ast.Assign):
                         ok = recv and text(par.targets[0]) == "self.scope"
@@ -547,6 +833,18 @@ def rule_outer_effect(run, prog):
     run.require(n >= 4, f"only {n} calls of Scope.outer() found (floor 4)")
 
 
+def _is_tab_test(fn, test) -> bool:
+    """`<name> == "\\t"` in either order, `<name> in ("\\t",)`, with the constant possibly hoisted to a name."""
+    if isinstance(test, ast.Compare) and len(test.ops) == 1 and isinstance(test.ops[0], (ast.Eq, ast.In)):
+        sides = [test.left, test.comparators[0]]
+        vals = [fold_in_fn(x, fn, default=None) if not (isinstance(x, ast.Name) and x.id in ("char", "c", "ch")) else None for x in sides]
+        names = [isinstance(x, ast.Name) for x in sides]
+        for v, other_is_name in ((vals[0], names[1]), (vals[1], names[0])):
+            if other_is_name and (v == "\t" or (isinstance(v, (tuple, list, set, frozenset)) and set(v) == {"\t"})):
+                return True
+    return False
+
+
 def rule_tabstops(run, prog):
     run.rule("R-3.3", "tab stops: the statements Lexer.pop executes for a tab, interpreted by the analyser for start "
              "columns 1..12, advance the column by 1..4 to the next column congruent to 1 modulo 4, and expand to that many "
@@ -555,7 +853,7 @@ def rule_tabstops(run, prog):
     run.require(pop is not None, "anchor vanished: Lexer.pop")
     tab_if = None
     for n in walk_fn(pop.node):
-        if isinstance(n, ast.If) and text(n.test) in ("char == '\\t'", "'\\t' == char"):
+        if isinstance(n, ast.If) and _is_tab_test(pop, n.test):
             tab_if = n
     run.require(tab_if is not None, "anchor vanished: the tab branch of Lexer.pop")
     blk = parent(tab_if)
@@ -601,20 +899,16 @@ def rule_tabstops(run, prog):
 FULL_RANGE_BOUNDS = ("len(context.tokens)", "context.tkn_scope", "context.arg_pos[1]", "len(context.tokens[:context.tkn_scope])")
 
 
-def rule_scan_complete(run, prog):
-    run.rule("R-3.4", "scan completeness: the loops that feed a limit (argument counter, per-token column test, newline "
-             "counter, per-line comment width) range over the whole unit: a counting while-loop may stop only on the nesting "
-             "depth, on end of input or on the end of the statement / parameter list; the for-loops iterate "
-             "context.tokens[:context.tkn_scope] resp. every line of the comment", floor=4)
-    # (a) the argument counter of CheckFuncDeclaration
-    fd = prog.method("CheckFuncDeclaration", "run")
-    run.require(fd is not None, "anchor vanished: CheckFuncDeclaration.run")
+def _arg_scan_syntactic(prog, fd):
+    """(ok | None when the counting loop is not of the recognised form, why, node)"""
     incs = [n for n in walk_fn(fd.node) if isinstance(n, ast.AugAssign) and isinstance(n.target, ast.Name)
             and any(isinstance(a, ast.If) and "COMMA" in text(a.test) for a in ancestors(n))
             and isinstance(n.op, ast.Add)]
-    run.require(len(incs) >= 1, "anchor vanished: the per-COMMA increment of CheckFuncDeclaration.run")
+    if not incs:
+        return None, "the per-COMMA increment is not of the recognised form", fd.node
     loop = next((a for a in ancestors(incs[0]) if isinstance(a, ast.While)), None)
-    run.require(loop is not None, "anchor vanished: the counting loop of CheckFuncDeclaration.run")
+    if loop is None:
+        return None, "the counting loop is not a while loop", fd.node
     bad = []
     depth_ok = False
     for c in conjuncts(loop.test):
@@ -632,30 +926,71 @@ def rule_scan_complete(run, prog):
     # the depth variable really tracks parentheses: decremented under an RPARENTHESIS test
     dec = [n for n in ast.walk(loop) if isinstance(n, ast.AugAssign) and isinstance(n.op, ast.Sub)
            and any(isinstance(a, ast.If) and "RPARENTHESIS" in text(a.test) for a in ancestors(n))]
-    run.ob("R-3.4", f"{fd.key}::arg-scan-range", depth_ok and bool(dec) and not bad,
-           f"the scan that counts the parameters is cut short by `{' and '.join(bad)}` (not the nesting depth, end of input or "
-           f"end of the parameter list): parameters beyond that point are not counted", loop, condition=text(loop.test))
-    # the scan starts right after the name's opening parenthesis: initial value of the counter's index derives from fname_pos
+    if not depth_ok or not dec:
+        return None, "the loop condition / depth bookkeeping is not of the recognised form", loop
+    return (not bad), f"cut short by `{' and '.join(bad)}`", loop
+
+
+def rule_scan_complete(run, prog):
+    run.rule("R-3.4", "scan completeness: the loops that feed a limit (argument counter, per-token column test, newline "
+             "counter, per-line comment width) range over the whole unit.  Decided on the behaviour: the check's run() is "
+             "interpreted on synthetic statements in which the offending element moves through every position (long / nested / "
+             "multi-line parameter lists; a far token at each index below and beyond tkn_scope; the long line first, inside "
+             "and last in a block comment); where run() cannot be interpreted, on the form of the loop (a counting while-loop "
+             "may stop only on the nesting depth, end of input or the end of the statement; the for-loops iterate "
+             "context.tokens[:context.tkn_scope] resp. every line)", floor=4)
+    # (a) the argument counter of CheckFuncDeclaration
+    fd = prog.method("CheckFuncDeclaration", "run")
+    run.require(fd is not None, "anchor vanished: CheckFuncDeclaration.run")
+    s_ok, s_why, s_node = _arg_scan_syntactic(prog, fd)
+    try:
+        probs = boundary_eval(prog, "CheckFuncDeclaration", "TOO_MANY_ARGS")
+        ok, why = not probs, "; ".join(probs[:2])
+        if ok and s_ok is False:
+            run.note(f"R-3.4 arg-scan: the loop condition reads as {s_why}, but every parameter is counted on the synthetic "
+                     f"prototypes (plain, nested, multi-line, 1-8 parameters): accepted")
+    except Unsupported as ex:
+        run.note(f"R-3.4 arg-scan: CheckFuncDeclaration.run not interpreted ({ex}); syntactic form used")
+        if s_ok is None:
+            raise AnalysisError(f"{fd.key}: {s_why}, and run() cannot be interpreted on stub statements ({ex})")
+        ok, why = s_ok, s_why
+    run.ob("R-3.4", f"{fd.key}::arg-scan-range", ok,
+           f"the scan that counts the parameters does not cover the whole parameter list ({why}): parameters beyond that point "
+           f"are not counted", s_node)
     # (b) per-token loops
-    for cname, what in (("CheckLineLen", "column test"), ("CheckLineCount", "newline counter")):
+    for cname, what, evaluate in (("CheckLineLen", "column test", lambda: eval_token_scan(prog, "CheckLineLen")),
+                                  ("CheckLineCount", "newline counter", lambda: eval_lines_counter(prog))):
         m = prog.method(cname, "run")
         run.require(m is not None, f"anchor vanished: {cname}.run")
         loops = [n for n in walk_fn(m.node) if isinstance(n, ast.For) and "tokens" in text(n.iter)]
-        ok = len(loops) >= 1 and text(loops[0].iter) in ("context.tokens[:context.tkn_scope]",)
-        brk = [x for x in ast.walk(loops[0]) if isinstance(x, (ast.Break, ast.Return))] if loops else []
-        run.ob("R-3.4", f"{m.key}::token-scan-range", ok and not brk,
-               f"the {what} does not visit every token of the statement (iterates `{text(loops[0].iter) if loops else '?'}`"
-               + (", leaves the loop early" if brk else "") + ")", loops[0] if loops else m.node)
+        try:
+            probs = evaluate()
+            ok, why = not probs, "; ".join(probs[:2])
+        except Unsupported as ex:
+            run.note(f"R-3.4 {cname}: run() not interpreted ({ex}); syntactic form used")
+            ok = len(loops) >= 1 and text(loops[0].iter) in ("context.tokens[:context.tkn_scope]",)
+            brk = [x for x in ast.walk(loops[0]) if isinstance(x, (ast.Break, ast.Return))] if loops else []
+            ok = ok and not brk
+            why = f"iterates `{text(loops[0].iter) if loops else '?'}`" + (", leaves the loop early" if brk else "")
+        run.ob("R-3.4", f"{m.key}::token-scan-range", ok,
+               f"the {what} does not visit every token of the statement ({why})", loops[0] if loops else m.node)
     # (c) every line of a block comment
     m = prog.method("CheckCommentLineLen", "run")
+    run.require(m is not None, "anchor vanished: CheckCommentLineLen.run")
     loops = [n for n in walk_fn(m.node) if isinstance(n, ast.For) and "lines" in text(n.iter)]
-    ok = len(loops) == 1
-    if ok:
-        it = loops[0].iter
-        seq = it.args[0] if isinstance(it, ast.Call) and text(it.func) == "enumerate" and it.args else it
-        ok = isinstance(seq, ast.Name) and not any(isinstance(x, (ast.Break, ast.Return)) for x in ast.walk(loops[0]))
+    try:
+        probs = [p_ for p_ in boundary_eval(prog, "CheckCommentLineLen", "LINE_TOO_LONG") if "block comment" in p_ and "not emitted" in p_]
+        ok, why = not probs, "; ".join(probs[:2])
+    except Unsupported as ex:
+        run.note(f"R-3.4 CheckCommentLineLen: run() not interpreted ({ex}); syntactic form used")
+        ok = len(loops) == 1
+        if ok:
+            it = loops[0].iter
+            seq = it.args[0] if isinstance(it, ast.Call) and text(it.func) == "enumerate" and it.args else it
+            ok = isinstance(seq, ast.Name) and not any(isinstance(x, (ast.Break, ast.Return)) for x in ast.walk(loops[0]))
+        why = ""
     run.ob("R-3.4", f"{m.key}::line-scan-range", ok,
-           "the comment-width test does not visit every line of the block comment", loops[0] if loops else m.node)
+           f"the comment-width test does not visit every line of the block comment ({why})", loops[0] if loops else m.node)
 
 
 def check(run, prog):
